@@ -218,7 +218,7 @@ int vf_run (void) {
 			pick = best;
 			/* a spinning high-priority fiber must not starve the others: demote it after a long run */
 			if (pick == cur) { consec++; } else { consec = 0; }
-			if (nrun > 1 && (fibers[pick].quiet_ops > 6 || consec > 60)) { fibers[pick].prio = (int) (vf_rand () % 1000); consec = 0; }
+			if (nrun > 1 && (fibers[pick].quiet_ops > 6 || consec > 60)) { fibers[pick].prio = 0; consec = 0; } /* below every change-point priority */
 		} else {
 			int stick = cfg.strategy == 1 ? 4 : cfg.strategy == 2 ? 16 : 1;
 			if (cur >= 0 && runnable (&fibers[cur]) && (vf_rand () % stick) != 0) { pick = cur; }
